@@ -21,6 +21,7 @@ CONSTANTS Deviations,
           Family        \* which part of the envelope Init enumerates
 
 PIdx == 1..NPA
+PIdxOf(q) == 1..Len(q)
 RIdx == 1..NRA
 
 VARIABLES cfg,        \* [pa: Seq(Attr), ra: Seq(Attr), tagged: BOOLEAN, devs: SUBSET STRING]
@@ -109,6 +110,12 @@ ServerValid(a, d) ==
   IF d = Absent /\ a.mode = "optional" /\ a.rule = "cminlen" /\ Dev("validate.absent_collection_length") THEN FALSE
   ELSE IF d # Absent /\ a.rule = "xrange" /\ Dev("validate.exclusive_max_unchecked") THEN Num2(d) > 2 * Lo
   ELSE ValidAttr(a, d)
+\*   decode.required_cookie_drops_param_errors   decoding a required cookie overwrites the error accumulated while
+\*                                  decoding and validating path / query / header parameters
+CookieDropsErrorsOf(i) ==
+  /\ Dev("decode.required_cookie_drops_param_errors")
+  /\ cfg.pa[i].loc \in {"path", "query", "header"}
+  /\ \E j \in PIdxOf(cfg.pa) : cfg.pa[j].loc = "cookie" /\ cfg.pa[j].mode = "required" /\ wire[j].loc # "none"
 ServerViolation(a, d) ==
   IF d = Absent /\ a.mode = "optional" /\ a.rule = "cminlen" THEN "invalid_length" ELSE ViolationOf(a, d)
 
@@ -163,10 +170,10 @@ ServerDecode ==
   /\ UNCHANGED <<cfg, pv, rv, wire, invoked, status, errname, rwire, returned, cerr>>
 ServerValidate ==
   /\ pc = "validate"
-  /\ IF \A i \in PIdx : ServerValid(cfg.pa[i], delivered[i])
+  /\ IF \A i \in PIdxOf(cfg.pa) : ServerValid(cfg.pa[i], delivered[i]) \/ CookieDropsErrorsOf(i)
      THEN pc' = "invoke" /\ UNCHANGED <<status, errname>>
      ELSE /\ pc' = "cswitch" /\ status' = 400
-          /\ errname' \in {ServerViolation(cfg.pa[i], delivered[i]) : i \in {j \in PIdx : ~ServerValid(cfg.pa[j], delivered[j])}}
+          /\ errname' \in {ServerViolation(cfg.pa[i], delivered[i]) : i \in {j \in PIdxOf(cfg.pa) : ~ServerValid(cfg.pa[j], delivered[j]) /\ ~CookieDropsErrorsOf(j)}}
   /\ UNCHANGED <<cfg, pv, rv, wire, delivered, invoked, rwire, returned, cerr>>
 Invoke ==
   /\ pc = "invoke" /\ invoked' = TRUE /\ pc' = "respond"
